@@ -26,6 +26,9 @@ type ackedWrite struct {
 	term int64
 	off  int64
 	vid  int
+	// acknowledged by a leader whose tracker started at a database commit offset beyond its log (after a figure-8
+	// rollback): the offset counted as committed before the entry existed, the answer was given without any copy
+	stale bool
 }
 
 type readRec struct {
@@ -338,6 +341,54 @@ func (m *monitor) onAckEmitted(l, f int, term, off int64) {
 func (m *monitor) onAckDelivered(l, f int, term, off int64) {}
 func (m *monitor) onDeleted(n int, lg []entry)              { m.deletedLogs[n] = lg }
 
+// onRestart: the log a node recovers from its directory after a restart must be the log it had before, cut to what
+// was synced (the harness never leaves an unsynced tail behind: it must be the same log).
+func (m *monitor) onRestart(n int) {
+	c := m.c
+	nd := c.node(n)
+	rec, ok := nd.recoveredLog()
+	if !ok {
+		return
+	}
+	c.stats["restart-log-checks"]++
+	c.mu.Lock()
+	lg := append([]entry(nil), nd.log...)
+	first := nd.walFirst
+	c.mu.Unlock()
+	want := lg
+	if int(first) <= len(lg) {
+		want = lg[first:]
+	}
+	bad := len(rec) != len(want)
+	for i := 0; !bad && i < len(rec); i++ {
+		if rec[i].term != want[i].term || rec[i].off != want[i].off || rec[i].sum != want[i].sum {
+			bad = true
+		}
+	}
+	if !bad {
+		return
+	}
+	show := func(l []entry) string {
+		if len(l) == 0 {
+			return "-"
+		}
+		var p []string
+		for _, e := range l {
+			vid := "?"
+			c.mu.Lock()
+			if k, ok := c.eids[[2]int64{e.term, e.off}]; ok && k.sum == e.sum {
+				vid = fmt.Sprint(k.vid)
+			}
+			c.mu.Unlock()
+			p = append(p, fmt.Sprintf("%d:(t%d,%s)", e.off, mterm(e.term), vid))
+		}
+		return strings.Join(p, " ")
+	}
+	c.violate("restart:log-differs-from-synced-prefix", fmt.Sprintf(
+		"node %d was restarted; before the restart its WAL held %s; the WAL recovered from its directory holds %s (entries that were truncated or never written are back, or synced entries are gone)",
+		n, show(want), show(rec)))
+}
+
 // onDiskLoss: the node lost its disk; what it held is remembered (longest log over its losses) so that a later loss
 // of data can be attributed to it or not.
 func (m *monitor) onDiskLoss(n int, lg []entry) {
@@ -586,6 +637,13 @@ func (m *monitor) checkAcked(n int, term int64, lg []entry) {
 		violMu.Lock()
 		c.lost = true
 		violMu.Unlock()
+		if a.stale {
+			// the consequence of the stale commit offset reported above (figure8:database-commit-offset-beyond-log-head)
+			violMu.Lock()
+			c.secondary = append(c.secondary, "acked-write-lost(answered-on-stale-commit-offset)")
+			violMu.Unlock()
+			continue
+		}
 		detail := fmt.Sprintf("%s was acknowledged in term %d at offset %d (entry %d.%d); node %d is LEADER in term %d with log %s and has %s at that offset",
 			a.o, a.term, a.off, mterm(a.term), a.vid, n, term, logTok(lg), have)
 		// classification: the only surviving copies sat on a node that the election consulted for the
@@ -670,9 +728,28 @@ func (m *monitor) auditLeaderDB(n int, term int64, lg []entry, when string) {
 
 // ------------------------------------------------------------------------------------------------ client history
 
+// onCommitAhead: BecomeLeader created the quorum tracker with the node's database commit offset, which is beyond the
+// node's log head: the database has applied entries that were later truncated off its log (committed by counting,
+// then rolled back: figure 8) and its commit offset was not taken back.
+func (m *monitor) onCommitAhead(call *asyncCall, commit int64) {
+	m.c.violate("figure8:database-commit-offset-beyond-log-head", fmt.Sprintf(
+		"node %d starts leading term %d with log head offset %d and a database commit offset %d: its database applied entries that a later leader truncated off its log, the commit offset stayed; every write it appends at an offset <= %d counts as committed at once and is answered without any copy on a follower",
+		call.node, call.term, call.headOff, commit, commit))
+}
+
 func (m *monitor) onWriteAcked(o *op) {
 	c := m.c
-	m.acked = append(m.acked, ackedWrite{o: o, term: o.term, off: o.off, vid: o.id})
+	aw := ackedWrite{o: o, term: o.term, off: o.off, vid: o.id}
+	c.mu.Lock()
+	if ln := c.node(o.node); ln != nil && ln.aheadTerm == o.term && o.off > ln.aheadHead && o.off <= ln.aheadUpTo {
+		aw.stale = true
+	}
+	c.mu.Unlock()
+	if aw.stale {
+		c.stats["acks-on-stale-commit-offset(figure8-consequence)"]++
+		c.event("note: %s at offset %d was answered at once: the leader's commit offset was already beyond it (stale database commit offset)", o, o.off)
+	}
+	m.acked = append(m.acked, aw)
 	lg := c.shadowLog(o.node)
 	// the response must be the one of the write's position in the log
 	if int(o.off) < len(lg) {
